@@ -274,8 +274,12 @@ def offset_algebra(ctx):
     y = [n for n in walk_func(bp) if isinstance(n, ast.Yield)]
     first = src(y[0].value.elts[0]).replace(" ", "") if y and isinstance(y[0].value, ast.Tuple) else None
     yl = None
-    for _n, env_ in P.find(bp, "for ($l, $f, $m, $c) in extract_python(...):\n    yield ($cl + ($l - 1), $f, $m, $tc)"):
-        yl = env_
+    from .common import linear_form
+    for _n, env_ in P.find(bp, "for ($l, $f, $m, $c) in extract_python(...):\n    yield ($line, $f, $m, $tc)"):
+        # the reported line, as a linear form: code_lineno + lineno - 1 in any spelling
+        lf = linear_form(env_["line"][1])
+        if lf is not None and lf == {pn(bp, 2): 1, src(env_["l"][1]): 1, "": -1}:
+            yl = dict(env_, cl=(None, ast.Name(id=pn(bp, 2), ctx=ast.Load())))
     ctx.check(yl is not None and src(yl["cl"][1]) == pn(bp, 2), "babel.lineno", db.where(bp), "Babel path reports line `%s`, expected code_lineno + (lineno - 1)" % first, "code_lineno + (lineno - 1)")
     ctx.check(y and len(y[0].value.elts) == 4 and yl is not None, "babel.tuple", db.where(bp), "Babel path does not yield (lineno, funcname, messages, comments)", "(lineno, funcname, messages, comments)")
     ctx.check(yl is not None and P.matches(yl["tc"][1], "%s + %s" % (pn(bp, 3), src(yl["c"][1]))), "babel.comments", db.where(bp), "translator comments are not attached", "template translator comments + python ones")
